@@ -54,6 +54,7 @@ class Check:
         self.assumptions: List[str] = []
         self.only_key: Optional[str] = None     # --replay
         self.write_files = True
+        self.extra: Dict[str, Any] = {}
 
     # ---------------------------------------------------------------- record
     def consult(self, *funcs: FuncInfo) -> None:
@@ -181,6 +182,7 @@ class Check:
                 "known_findings": [f.to_json() for f in knowns],
                 "violations": [f.to_json() for f in violations],
                 "notes": self.notes,
+                **self.extra,
             },
             "assumptions": self.assumptions + [
                 "the analysed program is the package source; no monkey-patching / setattr on protected attributes",
